@@ -63,6 +63,10 @@ fn send_body(method: &str, path: &str, wire_q: &str, headers: Vec<(String, Strin
 }
 
 fn send_body_framed(method: &str, path: &str, wire_q: &str, headers: Vec<(String, String)>, body: Vec<u8>, frame: usize) -> (u16, Vec<String>, String) {
+    send_body_pieces(method, path, wire_q, headers, body, frame, None)
+}
+/// `cut`: the body arrives in exactly two pieces, split at that offset (otherwise in frames of `frame` bytes)
+fn send_body_pieces(method: &str, path: &str, wire_q: &str, headers: Vec<(String, String)>, body: Vec<u8>, frame: usize, cut: Option<usize>) -> (u16, Vec<String>, String) {
     let rec = crate::service::Recorder::default();
     let log = rec.log.clone();
     let inputs_handle = rec.inputs.clone();
@@ -73,7 +77,10 @@ fn send_body_framed(method: &str, path: &str, wire_q: &str, headers: Vec<(String
     let mut rb = http::Request::builder().method(method).uri(uri);
     for (n, v) in &headers { rb = rb.header(n.as_str(), v.as_str()); }
     // the body is handed over as a STREAM of small frames (not a buffered body), as a transport would
-    let frames: Vec<Result<bytes::Bytes, std::io::Error>> = body.chunks(frame).map(|c| Ok(bytes::Bytes::copy_from_slice(c))).collect();
+    let frames: Vec<Result<bytes::Bytes, std::io::Error>> = match cut {
+        Some(k) if k > 0 && k < body.len() => vec![Ok(bytes::Bytes::copy_from_slice(&body[..k])), Ok(bytes::Bytes::copy_from_slice(&body[k..]))],
+        _ => body.chunks(frame).map(|c| Ok(bytes::Bytes::copy_from_slice(c))).collect(),
+    };
     let stream = futures::stream::iter(frames);
     let sbody = if body.is_empty() { s3s::Body::empty() } else { s3s::Body::from(s3s::dto::StreamingBlob::wrap(stream)) };
     let req = rb.body(sbody).unwrap();
@@ -394,6 +401,9 @@ pub fn post_form(a: &[String]) -> Value {
         f.extend_from_slice(format!("\r\n--{}", &boundary[..boundary.len() - 1]).as_bytes());
         f.extend_from_slice(&[0u8, 255, 13, 13, 10, 45, 45, 13]);
         f
+    } else if variant == "cuts" {
+        // a text file whose last line ends in CRLF, with CRs and delimiter look-alikes inside
+        b"first line\r\nsecond\r\r\n--\r\n----verifFormBoundary\r\nlast line\r\n".to_vec()
     } else { b"exactly twenty-3 bytes!".to_vec() };
     let mut body: Vec<u8> = Vec::new();
     let fields: Vec<(&str, String)> = vec![("key", key.to_owned()), ("x-amz-algorithm", "AWS4-HMAC-SHA256".into()), ("x-amz-credential", cred.clone()),
@@ -406,8 +416,30 @@ pub fn post_form(a: &[String]) -> Value {
     if variant == "unterminated-file" {
         // the body ends inside the file part: no closing delimiter ever arrives
         body.extend_from_slice(b"\r\n--some-other-boundary--\r\n");
+    } else if variant == "cuts" {
+        // a field AFTER the file (a submit button), then the closing delimiter
+        body.extend_from_slice(format!("\r\n--{boundary}\r\nContent-Disposition: form-data; name=\"submit\"\r\n\r\nUpload to Amazon S3\r\n--{boundary}--\r\n").as_bytes());
     } else {
         body.extend_from_slice(format!("\r\n--{boundary}--\r\n").as_bytes());
+    }
+    if variant == "cuts" {
+        // the body arrives in TWO pieces, for every cut position from the first byte of the file content to the end
+        let file_start = body.windows(file.len()).position(|w| w == &file[..]).unwrap();
+        let mut fnv: u64 = 0xcbf29ce484222325;
+        for y in &file { fnv = (fnv ^ u64::from(*y)).wrapping_mul(0x100000001b3); }
+        let mut n = 0;
+        for cut in file_start..body.len() {
+            n += 1;
+            let (st, calls, rbody) = send_body_pieces("POST", "/bkt", "", vec![("host".into(), "localhost".into()),
+                ("content-type".into(), format!("multipart/form-data; boundary={boundary}")), ("content-length".into(), body.len().to_string())], body.clone(), 1024, Some(cut));
+            let body_line = calls.iter().find(|c| c.starts_with("put_object.body")).cloned().unwrap_or_default();
+            let ok = calls.iter().any(|c| c.starts_with("put_object@")) && body_line.contains(&format!("bytes={} ", file.len())) && body_line.contains("end=clean") && body_line.contains(&format!("fnv={fnv:016x}"));
+            if !ok {
+                return json!({"violates": true, "input": {"variant": "cuts", "file_bytes": file.len(), "cut_offset_from_file_start": cut - file_start, "note": "the body arrives in two pieces split at this offset; a field follows the file"},
+                              "expected": "put_object with exactly the file's bytes, whatever the cut", "observed": {"status": st, "backend": calls, "response": rbody.chars().take(200).collect::<String>()}, "replay_args": ["post-form", "cuts"]});
+            }
+        }
+        return json!({"violates": false, "evaluated": n});
     }
     // frames of 1 KiB (the form's field part arrives in the first frame, the file may straddle frames)
     let (st, calls, rbody) = send_body_framed("POST", "/bkt", "", vec![("host".into(), "localhost".into()),
